@@ -58,7 +58,9 @@ struct DomExec {
   std::vector<std::unique_ptr<PoolA>> pools;
   WriteBuffer* wb[NWB] = {nullptr, nullptr, nullptr};
   std::vector<char*> keep;
-  std::vector<std::pair<char*, std::string>> shared_const;   // const string buffers that later, shorter strings may alias
+  std::vector<std::pair<char*, std::string>> shared_const;
+  std::vector<std::string> gone_keys;   // keys removed/erased recently: probed by every later lookup check (stale map entries)
+  void note_gone(const std::string& k) { if (gone_keys.size() >= 10) gone_keys.erase(gone_keys.begin()); gone_keys.push_back(k); }   // const string buffers that later, shorter strings may alias
   std::vector<std::pair<char*, size_t>> canaries;   // bytes right behind user-supplied pool buffers
   void check_canaries() {
     for (auto& c : canaries) for (size_t i = 0; i < c.second; i++) if ((unsigned char)c.first[i] != 0xC5) violate("overlap", site("user_buffer_overrun"), "a pool constructed over a caller-supplied buffer wrote past the end of that buffer (" + std::to_string(c.second - i) + " byte(s) before its end were overwritten)");
@@ -212,6 +214,7 @@ struct DomExec {
     keys.push_back("zz"); keys.push_back("");
     if (present) { std::string k = keys[0]; if (k.empty()) k = "\x01"; else k[k.size() - 1] ^= 1; keys.push_back(k); k = keys[0] + "x"; keys.push_back(k); }
     keys.push_back(std::string(40, 'k'));
+    for (auto& gk : gone_keys) { bool dup = false; for (auto& k : keys) if (k == gk) dup = true; if (!dup) keys.push_back(gk); }
     const N& cn = n;
     for (auto& k : keys) {
       int want = m.find(k);
@@ -602,6 +605,7 @@ struct DomExec {
       int j = m.find(key);
       if (r != (j >= 0)) violate("model", site("return"), std::string("RemoveMember returned ") + (r ? "true" : "false") + " for a key that is " + (j >= 0 ? "present" : "absent"));
       if (j >= 0) {
+        note_gone(key);
         size_t last = m.o.size() - 1;
         if ((size_t)j != last) { m.o[(size_t)j] = std::move(m.o[last]); probe("remove_moves_tail"); if (m.has_map) probe("remove_moves_tail_with_map"); }
         m.o.pop_back();
@@ -617,6 +621,8 @@ struct DomExec {
       size_t last = first + (size_t)((uint64_t)op.A(2) % (sz - first + 1));
       if (sz == 0 && n.MemberBegin() == nullptr) { /* iterators of an empty object without storage */ }
       auto it = n.EraseMember(n.MemberBegin() + first, n.MemberBegin() + last);
+      for (size_t q = first; q < last && q < first + 4; q++) note_gone(m.o[q].first);
+      if (last > first) note_gone(m.o[last - 1].first);
       m.o.erase(m.o.begin() + (long)first, m.o.begin() + (long)last);
       m.has_map = false;
       long ri = it - n.MemberBegin();
@@ -719,6 +725,7 @@ struct DomExec {
     }
     if (k == "Clear") {
       if (!m.is_container()) return false;
+      for (size_t q = 0; q < m.o.size() && q < 4; q++) note_gone(m.o[q].first);
       n.Clear(); m.a.clear(); m.o.clear(); m.has_map = false;
       if (n.Size() != 0 || !n.Empty()) violate("model", site("size"), "container not empty after Clear");
       ob = "c"; return true;
